@@ -51,7 +51,7 @@ pub fn expand(case: &Case) -> Vec<(String, Case)> {
         steps.push(Step::Status);
         out.push((
             "SlotWait:Drop:r0".to_string(),
-            Case { cfg: cfg.clone(), script: Script::default(), steps, matrix: None, sweep: None },
+            Case { cfg: cfg.clone(), script: Script::default(), steps, matrix: None, sweep: None, timed: None },
         ));
         // with a second waiter behind it that must be served afterwards
         let mut steps = prefix.clone();
@@ -62,7 +62,7 @@ pub fn expand(case: &Case) -> Vec<(String, Case)> {
         steps.push(Step::PollWoken { pause: None });
         out.push((
             "SlotWait:Drop+waiter:r0".to_string(),
-            Case { cfg: cfg.clone(), script: Script::default(), steps, matrix: None, sweep: None },
+            Case { cfg: cfg.clone(), script: Script::default(), steps, matrix: None, sweep: None, timed: None },
         ));
         return out;
     }
@@ -121,7 +121,7 @@ pub fn expand(case: &Case) -> Vec<(String, Case)> {
                 steps.push(Step::Status);
                 out.push((
                     format!("{:?}:{:?}:r{}", pt, mode, r),
-                    Case { cfg: cfg.clone(), script, steps, matrix: None, sweep: None },
+                    Case { cfg: cfg.clone(), script, steps, matrix: None, sweep: None, timed: None },
                 ));
             }
         }
